@@ -8,7 +8,7 @@
 //! Identifiers: a sized value carries `thread << 32 | ordinal` given at its
 //! creation (generator ordinal / call ordinal of the creating thread). A ZST has
 //! no identity: its events are numbered by the ordinal of that event kind on the
-//! executing thread.
+//! executing thread (a ZST input dropped inside a call is that call's input).
 
 use std::cell::Cell;
 use std::mem;
@@ -142,6 +142,8 @@ thread_local! {
     static DROPOUT_ORD: Cell<u64> = const { Cell::new(0) };
     static COUNT_ORD: [Cell<u64>; 4] = const { [Cell::new(0), Cell::new(0), Cell::new(0), Cell::new(0)] };
     static IN_CALL: Cell<bool> = const { Cell::new(false) };
+    /// Identifier of the input of the call in progress.
+    static CUR_IN: Cell<u64> = const { Cell::new(0) };
 }
 
 fn reset_thread() {
@@ -186,8 +188,11 @@ trait Val: Sized + 'static {
 }
 
 fn log_drop_in(carried: Option<u64>) {
-    let id = carried.unwrap_or_else(|| gid(next(&DROPIN_ORD)));
-    v::log_event(DROP_IN, id, IN_CALL.with(|c| c.get()) as u64);
+    let in_call = IN_CALL.with(|c| c.get());
+    // A ZST dropped inside a call is the call's own input (the only ZST input
+    // the benchmarked function owns); outside a call it is numbered by ordinal.
+    let id = carried.unwrap_or_else(|| if in_call { CUR_IN.with(|c| c.get()) } else { gid(next(&DROPIN_ORD)) });
+    v::log_event(DROP_IN, id, in_call as u64);
     with_cfg(|c| run_script(&c.i));
 }
 
@@ -296,6 +301,7 @@ fn call_common(carried_in: Option<u64>) -> u64 {
     let ord = CALL_ORD.with(|c| c.get());
     let tid = v::thread_index();
     let in_id = carried_in.unwrap_or_else(|| gid(ord));
+    CUR_IN.with(|c| c.set(in_id));
     if with_cfg(|c| c.panic == Some((false, tid, ord))) {
         v::log_event(CALL_PANIC, in_id, 0);
         panic!("injected call panic");
